@@ -121,10 +121,10 @@ UNITS['c01'] = {
 
 PROPS = {
     'C01': {
-        'units': ['c01'],
+        'units': ['c01', 'c07'],
         'kani': [dict(_KANI_STATUS, obligation='C01.status.try_from.total')],
         'level': 'other',
-        'obligation_prefixes': ['C01.'],
+        'obligation_prefixes': ['C01.', 'C07.unify.head_sound', 'C07.unify.occurs_before_bind', 'C07.unify.nopanic', 'C07.occurs.complete'],
         'technique': 'Verus contracts on the real cast_*, kind predicates, check_*/type_check and eval_* bodies: progress at every cast site relative to a stated (assumed) tag/value preservation relation',
         'level_text': 'Deductive proof (Verus/Z3) of PROGRESS at the cast sites, for all syntax trees and tags: (1) each real cast_* cannot panic under a stated value precondition; '
                       '(2) the real TagWrap predicates / check_* / type_check establish, for every node of a module, the kind facts of its children; '
